@@ -82,3 +82,71 @@ Lemma newline_not_matched_by_recursive_wildcard_refuted :
     std_glob t p subs = Some [[100;47]; path] /\ recorded t p subs = Some [[100;47]]
     /\ nglob_ref false p subs path = Some true.
 Proof. exists [([100], Dir [([110;10;108], File)])], [100;47;42;42], [], [100;47;110;10;108]. vm_compute. repeat split. Qed.
+
+(* D5d, second trigger: `d/**/*`: the part before the last wildcard is (?:.*/|), which does not
+   "end with a separator" as text, so the last `*` may stay empty and "d/" is accepted. *)
+Lemma empty_component_after_recursive_refuted :
+  exists t p subs path,
+    recorded t p subs = Some [] /\ accepted_existing t p subs = Some [path]
+    /\ nglob_ref false p subs path = Some false.
+Proof. exists [([100], Dir [])], [100;47;42;42;47;42], [], [100;47]. vm_compute. repeat split. Qed.
+
+(* D5f: `*${*n}aa` with the sub-pattern n = `**`: the sub-pattern is compiled on its own to `.*`,
+   which crosses separators, while the glob translation merges it into `**aa`, a single component. *)
+Lemma recursive_sub_pattern_refuted :
+  exists t p subs path,
+    recorded t p subs = Some [] /\ accepted_existing t p subs = Some [path].
+Proof.
+  exists [([97;97], Dir [([97;97], File)])], [42;36;123;42;110;125;97;97], [([110], [42;42])], [97;97;47;97;97].
+  vm_compute. repeat split.
+Qed.
+
+(* ---- The full statement of C17 (kept visible, not proved; refuted on the current code) ---- *)
+
+Fixpoint name_occurrences (ts : list tok) : list str :=
+  match ts with
+  | [] => []
+  | TName n :: r => n :: name_occurrences r
+  | _ :: r => name_occurrences r
+  end.
+
+Definition C17_full_statement : Prop :=
+  forall (p : str) (subs : subs_t) (g : ng) (gp : str),
+    ng_make p subs = COk g -> conv_glob p subs = COk gp ->
+    (* the matcher is the documented semantics (standard glob reading of directories) *)
+    (forall path b, wf_path path = true -> nglob_ref true p subs path = Some b -> ng_accepts g path = b)
+    (* recorded = existing paths the matcher accepts, on every finite tree *)
+    /\ (forall t q, In q (files (scan key_eqb (ng_mv g) (glob_paths t gp)))
+                    <-> In q (all_paths t) /\ ng_accepts g q = true)
+    (* ... which without repeated names is what the standard recursive glob returns *)
+    /\ (NoDup (name_occurrences (tokenize p)) ->
+        forall t q, In q (files (scan key_eqb (ng_mv g) (glob_paths t gp))) <-> In q (glob_paths t gp))
+    (* replacing an anonymous `*` by a fresh named wildcard never changes which paths match *)
+    /\ (forall p2 g2 pre post n,
+          tokenize p = pre ++ TStar :: post -> tokenize p2 = pre ++ TName n :: post ->
+          ~ In n (name_occurrences (tokenize p)) -> subs_get n subs = None ->
+          ng_make p2 subs = COk g2 -> forall path, ng_accepts g2 path = ng_accepts g path).
+
+Lemma C17_full_statement_refuted : ~ C17_full_statement.
+Proof.
+  intros H.
+  destruct (ng_make [42;91;33;97;93] []) as [g|] eqn:E; [|vm_compute in E; discriminate].
+  destruct (H [42;91;33;97;93] [] g [42;91;33;97;93] E eq_refl) as [_ [H2 _]].
+  specialize (H2 [([97], Dir [])] [97;47]).
+  vm_compute in E. inversion E; subst g. clear E.
+  destruct H2 as [_ H2]. assert (Hin : In [97;47] []); [|destruct Hin].
+  apply H2. vm_compute. split; [left; reflexivity|reflexivity].
+Qed.
+
+Lemma empty_component_accepted_both_refuted :
+  (exists t p subs path,
+     recorded t p subs = Some [] /\ accepted_existing t p subs = Some [path]
+     /\ nglob_ref false p subs path = Some false)
+  /\ (exists t p subs path,
+     recorded t p subs = Some [] /\ accepted_existing t p subs = Some [path]
+     /\ nglob_ref false p subs path = Some false /\ p = [100;47;42;42;47;42]).
+Proof.
+  split; [exact empty_component_accepted_refuted|].
+  destruct empty_component_after_recursive_refuted as [t [p [subs [path H]]]].
+  exists [([100], Dir [])], [100;47;42;42;47;42], [], [100;47]. vm_compute. repeat split.
+Qed.
